@@ -149,6 +149,48 @@ def hostile_request(r: random.Random, pol: dict) -> dict:
     return req
 
 
+EDGE_ISO = ["0001-01-01T00:00:00+05:30", "0001-01-01T00:00:00+00:01", "0001-01-01T00:00:00Z", "0001-01-01", "9999-12-31T23:59:59-00:01",
+            "9999-12-31T23:59:59.999999Z", "9999-12-31T23:59:59-23:59", "0001-01-01T00:00:00+23:59", "2016-12-31T23:59:60Z",
+            "2024-01-01T24:00:00", "2024-W01-1", "2024-001", "20240101T000000Z", " 2024-01-01", "2024-01-01T00:00:00+00:00:30",
+            "2024-01-01T00:00:00,5Z", "+002024-01-01", "2024-02-30", "2024-01-01T00:00:00+24:00", "2024-01-01T00:00:00-00:00",
+            "0000-01-01T00:00:00Z", "10000-01-01T00:00:00Z", "1970-01-01T00:00:00.000000001Z", "2024-01-01t00:00:00z"]
+GRID_OPS = ["==", "!=", "<", "<=", ">", ">=", "contains", "in", "hasAll", "hasAny", "startsWith", "endsWith", "before", "after"]
+BENIGN = {"==": 1, "!=": 1, "<": 1, "<=": 1, ">": 1, ">=": 1, "contains": "a", "in": [1, "a"], "hasAll": [1], "hasAny": [1],
+          "startsWith": "a", "endsWith": "a", "before": "2024-06-01T00:00:00Z", "after": "2024-06-01T00:00:00+02:00"}
+
+
+def grid_cases(quick: bool):
+    """every operator × every hostile value, as the attribute-resolved LEFT operand, the attribute-resolved RIGHT operand, both, and
+    (for JSON-representable values) as a policy literal × lax/strict: the conversions that may raise sit behind specific operators, so a
+    random stream reaches a given (operator, value) cell only by luck."""
+    vals = gen.HOSTILE_NUMS + gen.HOSTILE_STRS + EDGE_ISO + [None, True, [], {}, [float("inf")], {"a": 10 ** 400}, [None], "", 0, -0.0]
+    base = {"sid": "u", "roles": [], "sattrs": {}, "action": "read", "rtype": "doc", "rid": "1", "rattrs": {}}
+    def pol(cond):
+        return {"algorithm": "deny-overrides", "rules": [{"id": "g", "effect": "permit", "actions": ["read"], "resource": {"type": "doc"},
+                                                            "condition": cond},
+                                                           {"id": "h", "effect": "deny", "actions": ["read"], "resource": {"type": "doc"},
+                                                            "condition": {"not": cond}}]}
+    k = 0
+    for op in GRID_OPS:
+        for v in vals:
+            k += 1
+            strict = bool(k % 2)
+            ctx = {"v": v, "w": v}
+            yield pol({op: [{"attr": "context.v"}, BENIGN[op]]}), {**base, "ctx": ctx}, {"strict": strict}
+            yield pol({op: [BENIGN[op], {"attr": "context.v"}]}), {**base, "ctx": ctx}, {"strict": not strict}
+            if not quick or k % 3 == 0:
+                yield pol({op: [{"attr": "context.v"}, {"attr": "context.w"}]}), {**base, "ctx": ctx}, {"strict": strict}
+            if not (isinstance(v, float) and (v != v or v in (float("inf"), float("-inf")))) and (not quick or k % 3 == 1):
+                yield pol({op: [v, BENIGN[op]]}), {**base, "ctx": {}}, {"strict": not strict}
+    for v in vals:
+        k += 1
+        ctx = {"v": v, "lo": "2024-01-01T00:00:00Z", "hi": "2025-01-01T00:00:00Z"}
+        yield pol({"between": [{"attr": "context.v"}, ["2024-01-01T00:00:00Z", "2025-01-01T00:00:00Z"]]}), {**base, "ctx": ctx}, {"strict": bool(k % 2)}
+        yield pol({"between": ["2024-06-01T00:00:00Z", [{"attr": "context.v"}, {"attr": "context.hi"}]]}), {**base, "ctx": ctx}, {"strict": False}
+        yield pol({"between": ["2024-06-01T00:00:00Z", [{"attr": "context.lo"}, {"attr": "context.v"}]]}), {**base, "ctx": ctx}, {"strict": False}
+        yield pol({"between": ["2024-06-01T00:00:00Z", {"attr": "context.v"}]}), {**base, "ctx": ctx}, {"strict": False}
+
+
 def domain_ok(req: dict) -> bool:
     """inside the statement: values encodable for the model (JSON values + datetimes); no NaN inside containers"""
     try:
@@ -197,6 +239,16 @@ def run_cases(run: lib.Run, audit: dict, scale: int = 1):
             run.count("outside-domain")
             continue
         cases.append((doc, req, {"strict": r.random() < 0.35}))
+    if scale == 1:
+        for doc, req, cfg in grid_cases(quick):
+            if not schema_ok(doc):
+                run.count("grid:schema-rejected")
+                continue
+            if not domain_ok(req) or not domain_ok({"p": doc}):
+                run.count("outside-domain")
+                continue
+            run.count("grid")
+            cases.append((doc, req, cfg))
     res = gc.run_batch(cases, consts, with_impl_spec=False)
     wf_cmds = [{"cmd": "wellformed", "policy": proto.enc(pol), "consts": {}, "oracle": {}} for pol, _, _ in cases]
     wf = proto.run_driver(wf_cmds)
@@ -221,7 +273,9 @@ def run_cases(run: lib.Run, audit: dict, scale: int = 1):
 
 
 def check(run: lib.Run, audit: dict) -> int:
-    run.rule = ("random: schema-grammar policies / sets (60 % with hostile literals, 30 % with rel) and single-point mutations (14 kinds), kept only "
+    run.rule = ("grid: 14 binary operators + between × ~90 hostile values (non-finite/huge/out-of-range numbers, odd and calendar-edge ISO "
+                "strings with offsets, nulls, containers) as left / right / both attribute operands and as policy literal, lax and strict; "
+                "random: schema-grammar policies / sets (60 % with hostile literals, 30 % with rel) and single-point mutations (14 kinds), kept only "
                 "if the real bundled schema accepts them, JSON/YAML round-tripped; requests with hostile values (NaN, ±Inf, 10^400, ±2^63, "
                 "out-of-range epochs, malformed/edge ISO dates, empty/odd strings, nulls, wrong types, nested containers) in every slot, lax and "
                 "strict. non-trivial = the decision's reason is not no_match")
